@@ -285,7 +285,7 @@ Section Doc.
     { fuel1 fuel. cbn [parse_trees]. rewrite sc_nl. tk.
       rewrite parse_trees_spec; [reflexivity|exact HE|unfold taxa_text in *; len]. }
     cbn [ns_table nexus0 ns_taxantax ns_taxlabels ns_trees ns_data ns_missing ns_gap ns_tabs] in *.
-    rewrite PT. tk. cbn [tnames tstrings ttable app].
+    rewrite PT. tk. cbn [tnames tstrings ttable app prev_trees ns_trees fst snd].
     fuel1 fuel. cbn [main_loop]. rewrite sc_nl0. tk.
     fuel1 fuel. cbn [main_loop]. rewrite sc_eof. tk. reflexivity.
   Qed.
